@@ -1,23 +1,36 @@
-(* C12 — executable model of one notification stream of litep2p, sender user -> receiver user:
-     NotificationHandle A (send_sync_notification / clogged set / ForceClose),
-     NotificationSink (sync queue cap_s, async queue cap_a, blocked async senders),
-     Connection A  (src/protocol/notification/connection.rs::poll_next: next_notification slot,
-                    outbound Substream sink with its BACKPRESSURE_BOUNDARY, size check),
-     carrier A->B  (byte pipe with a write gate and a read gate, supplied by the harness),
-     Connection B  (poll_reserve on the user channel BEFORE reading the inbound substream,
-                    size check of the reader),
-     user channel (cap_n), NotificationHandle B (event queue first, `peers` filter).
-   Successive open periods reuse the two handles (fresh sink queues, carriers and Connections).
-   Definitions only; proofs are in Proofs.v.
+(* C12 — executable model of one notification stream between two litep2p endpoints A and B, both
+   directions at once, as a set of processes driven by an explicit scheduler.
 
-   Abstractions (all diffed by the correspondence harness):
-   - a notification is (tag, length); its period and sending mode are ghost fields which the
-     harness encodes in the payload so that they show up in the delivered trace;
-   - `tokio::select!{async_rx, sync_rx}` is a nondeterministic merge: the choice for each pop
-     comes from a hint list (any list; the harness fills in what the implementation did);
-   - every scripted action is followed by `settle`: both Connection tasks are polled until
-     nothing is runnable (the harness does the same on a current-thread runtime);
-   - the reverse direction (B -> A) is idle; the reverse carrier only signals EOF. *)
+   Per endpoint x:
+     user x              calls on NotificationHandle (send_sync_notification, poll) and on clones of the
+                         NotificationSink (send_async_notification futures: created, polled, dropped)
+     handle x            event channel first, then the channel of received notifications, with the
+                         stream-identifier filter; `clogged` set; command channel (ForceClose)
+     sink queues x       sync queue (try_send), async queue (tokio mpsc semaphore: waiting senders are
+                         handed permits in FIFO order, a dropped sender returns its permit)
+     Connection task x   src/protocol/notification/connection.rs::poll_next/start: shutdown signal,
+                         outbound loop (next_notification slot, select! over the two queues, Sink
+                         poll_ready with BACKPRESSURE_BOUNDARY, start_send size check), flush,
+                         poll_reserve on the user channel BEFORE reading the inbound substream
+     protocol x          opens a stream (new sink queues and Connection, Opened event), asks the
+                         Connection to shut down, executes ForceClose by killing the transport
+   and two byte carriers (A->B, B->A) with a write gate and a read gate each.
+
+   One scheduler step = one call / one poll of one future of one process (Inductive step). `run`
+   executes ANY list of steps: the theorems quantify over all of them. The quiescence-based harness
+   stream ("one user action, then run the Connection tasks until nothing is runnable") is the
+   derived macro `settle`, a particular composition of steps.
+
+   Abstractions (diffed by the correspondence harness):
+   - a notification is (tag, length); its origin, period and sending mode are ghost fields which
+     the harness encodes in the payload;
+   - `tokio::select!{async_rx, sync_rx}` is a nondeterministic merge: the choice for each pop comes
+     from a hint list (any list; the harness fills in what the implementation did);
+   - tokio's cooperative budget is the `budget` argument of a handle poll and of a Connection poll:
+     the number of channel operations (receives, permit acquisitions) after which every further one
+     returns Pending — the preemption point of the task. A Connection poll that is cut short this way
+     stops after some pops of its outbound loop, or before it collects the slot of the handle channel;
+     close_connection is atomic (the harness polls a Connection that has begun to close until it is done). *)
 From Coq Require Import List NArith Bool.
 From V.gen Require Consts.
 Import ListNotations.
@@ -25,65 +38,85 @@ Open Scope N_scope.
 
 Definition BOUNDARY : N := Consts.BACKPRESSURE_BOUNDARY.
 
-Record notif := mkN { n_per : N; n_sync : bool; n_tag : N; n_len : N }.
+(* n_from = true: sent by endpoint A *)
+Record notif := mkN { n_from : bool; n_per : N; n_sync : bool; n_tag : N; n_len : N }.
 
-Record cfg := mkCfg {
-  cap_s : N;      (* sync_channel_size *)
-  cap_a : N;      (* async_channel_size *)
-  cap_n : N;      (* size of the channel carrying received notifications to the handle *)
-  max_out : N;    (* max_notification_size of the sender's outbound substream codec *)
-  max_in : N      (* max_notification_size of the receiver's inbound substream codec *)
+Record ecfg := mkEC {
+  c_s : N;      (* sync_channel_size *)
+  c_a : N;      (* async_channel_size *)
+  c_n : N;      (* size of the channel carrying received notifications to the handle *)
+  c_c : N;      (* size of the command channel of the handle *)
+  c_max : N     (* max_notification_size (codec of both substreams of the endpoint) *)
 }.
+Record cfg := mkCfg { cfA : ecfg; cfB : ecfg }.
+Definition ecf (c : cfg) (x : bool) : ecfg := if x then cfA c else cfB c.
 
 Inductive hev := HOpened (k : N) | HClosed (k : N).
 
-(* sender side of the current period *)
-Record aside := mkA {
-  a_alive : bool;            (* Connection A task is running *)
-  syncq : list notif;        (* sync_rx content *)
-  asyncq : list notif;       (* async_rx content *)
-  waiters : list notif;      (* send_async_notification futures waiting for capacity, FIFO *)
-  parked : option notif;     (* Connection.next_notification *)
-  sink : list notif;         (* frames queued in the outbound Substream : pending_out_frames *)
-  hints : list bool          (* remaining merge choices of this period: true = sync_rx *)
+(* a send_async_notification future that is waiting for capacity *)
+Record waiter := mkW { w_id : N; w_n : notif; w_asg : bool (* a permit was handed to it *) }.
+
+(* Connection task and sink queues of the current (or last) period of an endpoint *)
+Record conn := mkC {
+  e_alive : bool;            (* the Connection task has not finished *)
+  e_per : N;                 (* period (carrier pair) it belongs to *)
+  e_shut : bool;             (* shutdown was requested by the protocol (oneshot fired) *)
+  e_sq : list notif;         (* sync_rx content *)
+  e_aq : list notif;         (* async_rx content *)
+  e_cur : option notif;      (* Connection.next_notification *)
+  e_sk : list notif;         (* frames queued in the outbound Substream: pending_out_frames *)
+  e_hints : list bool;       (* remaining merge choices: true = sync_rx *)
+  e_res : bool;              (* its PollSender holds a permit of the user channel *)
+  e_rwait : bool             (* its PollSender is queued for a permit (poll_reserve returned Pending) *)
 }.
 
-(* killed: the transport connection was force-closed: reads give EOF, writes and flushes fail *)
-Record link := mkL { wgate : bool; rgate : bool; carrier : list notif; killed : bool }.
-
-Record bside := mkB {
-  b_alive : bool;            (* Connection B task is running *)
-  reserved : bool;           (* its PollSender holds a permit of the user channel *)
-  notifq : list notif;       (* user channel content (shared by all periods) *)
-  b_events : list hev;       (* event channel of handle B *)
-  b_peers : bool             (* handle B: peers.contains_key(peer) *)
+Record hnd := mkH {
+  e_ws : list waiter;        (* pending send_async futures, in creation order *)
+  e_nq : list notif;         (* channel of received notifications (shared by all periods) *)
+  e_evs : list hev;          (* event channel *)
+  e_peers : option N;        (* handle: peers[peer] = sink of this period *)
+  e_clog : bool;             (* handle: clogged.contains(peer) *)
+  e_cmds : N                 (* ForceClose commands in the command channel *)
 }.
 
-Record ahand := mkH {
-  a_events : list hev;       (* event channel of handle A *)
-  a_sink : option N;         (* handle A: peers[peer] = sink of this period *)
-  a_clogged : bool           (* handle A: clogged.contains(peer) *)
+Record glog := mkG {
+  e_acc : list notif;        (* ghost: sends of this user that returned Ok, in order *)
+  e_del : list notif;        (* ghost: NotificationReceived events seen by this user, in order *)
+  e_dper : list (option N);  (* ghost: the stream the handle considered open at each of them *)
+  e_fclog : list N;          (* ghost: period of every ForceClose command that was queued *)
+  e_fclost : N;              (* ForceClose commands that did not fit the command channel *)
+  e_seen : list hev;         (* ghost: Opened/Closed events seen by this user *)
+  e_aok : N; e_aerr : N      (* completed send_async futures *)
 }.
 
-Record logs := mkG {
-  accepted : list notif;     (* ghost: sends that returned Ok, in order *)
-  delivered : list notif;    (* ghost: NotificationReceived events seen by user B, in order *)
-  fclog : list N;            (* ghost: period of every ForceClose command *)
-  async_ok : N;              (* completed send_async_notification futures: Ok *)
-  async_err : N;             (* ... Err *)
-  nyes : N;                  (* "notify protocol" messages of the Connection tasks *)
-  bad : N                    (* hints that named an empty queue *)
-}.
+Record ep := mkEp { ec : conn; eh : hnd; eg : glog }.
+
+Record lk := mkL { wgate : bool; rgate : bool; carrier : list notif }.
 
 Record st := mkSt {
-  per : N; sa : aside; sl : link; sb : bside; sh : ahand; sg : logs;
+  per : N;                   (* current period = number of carrier pairs created *)
+  killed : bool;             (* the transport connection of the current period was force-closed *)
+  sA : ep; sB : ep;
+  lAB : lk; lBA : lk;
+  nyes : N;                  (* "notify protocol" messages of the Connection tasks *)
+  bad : N;                   (* hints that named an empty queue *)
   later_hints : list (list bool)
 }.
 
-Definition dead_a : aside := mkA false [] [] [] None [] [].
+Definition dead_conn : conn := mkC false 0 false [] [] None [] [] false false.
+Definition init_ep : ep := mkEp dead_conn (mkH [] [] [] None false 0) (mkG [] [] [] [] 0 [] 0 0).
 Definition init (hs : list (list bool)) : st :=
-  mkSt 0 dead_a (mkL true true [] false) (mkB false false [] [] false) (mkH [] None false)
-       (mkG [] [] [] 0 0 0 0) hs.
+  mkSt 0 false init_ep init_ep (mkL true true []) (mkL true true []) 0 0 hs.
+
+Definition gep (s : st) (x : bool) : ep := if x then sA s else sB s.
+Definition sep (s : st) (x : bool) (e : ep) : st :=
+  if x then mkSt (per s) (killed s) e (sB s) (lAB s) (lBA s) (nyes s) (bad s) (later_hints s)
+  else mkSt (per s) (killed s) (sA s) e (lAB s) (lBA s) (nyes s) (bad s) (later_hints s).
+(* outbound carrier of x; the inbound one is glo (negb x) *)
+Definition glo (s : st) (x : bool) : lk := if x then lAB s else lBA s.
+Definition slo (s : st) (x : bool) (l : lk) : st :=
+  if x then mkSt (per s) (killed s) (sA s) (sB s) l (lBA s) (nyes s) (bad s) (later_hints s)
+  else mkSt (per s) (killed s) (sA s) (sB s) (lAB s) l (nyes s) (bad s) (later_hints s).
 
 Definition len {A} (l : list A) : N := N.of_nat (length l).
 
@@ -94,7 +127,7 @@ Definition varint_len (x : N) : N :=
 Definition frame_bytes (n : notif) : N := varint_len (n_len n) + n_len n.
 Definition sink_bytes (l : list notif) : N := fold_right (fun n acc => frame_bytes n + acc) 0 l.
 
-(* ---- Connection A: the outbound loop of poll_next (one task poll) ---- *)
+(* ---- Connection: the outbound loop of poll_next ---- *)
 
 Inductive pick := PSync | PAsync | PNone.
 
@@ -140,8 +173,8 @@ Definition a_next (L : lst) : option notif * lst :=
       end
   end.
 
-(* returns (closed, state): closed = start_send refused the notification (oversize) *)
-Fixpoint a_loop (fuel : nat) (c : cfg) (wg : bool) (L : lst) : bool * lst :=
+(* returns (closed, state): closed = start_send refused the notification (larger than mx) *)
+Fixpoint a_loop (fuel : nat) (mx : N) (wg : bool) (L : lst) : bool * lst :=
   match fuel with
   | O => (false, L)
   | S f =>
@@ -152,179 +185,379 @@ Fixpoint a_loop (fuel : nat) (c : cfg) (wg : bool) (L : lst) : bool * lst :=
           match poll_ready wg (l_sk L1) (l_ca L1) with
           | None => (false, set_cur (Some n) L1)
           | Some (sk', ca') =>
-              if max_out c <? n_len n
+              if mx <? n_len n
               then (true, set_out sk' ca' L1)
-              else a_loop f c wg (set_out (sk' ++ [n]) ca' L1)
+              else a_loop f mx wg (set_out (sk' ++ [n]) ca' L1)
           end
       end
   end.
 
 Definition opt_len {A} (o : option A) : nat := match o with Some _ => 1 | None => 0 end.
 
-(* Connection::close_connection of A *)
-Definition close_a (notify : bool) (s : st) : st :=
-  let a := sa s in let g := sg s in let h := sh s in
-  mkSt (per s) (mkA false [] [] [] None [] (hints a)) (sl s) (sb s)
-       (mkH (a_events h ++ [HClosed (per s)]) (a_sink h) (a_clogged h))
-       (mkG (accepted g) (delivered g) (fclog g) (async_ok g) (async_err g + len (waiters a))
-            (if notify then nyes g + 1 else nyes g) (bad g))
-       (later_hints s).
+(* ---- the async queue: tokio mpsc with a fair semaphore ---- *)
 
-(* Connection::close_connection of B *)
-Definition close_b (notify : bool) (s : st) : st :=
-  let b := sb s in let g := sg s in
-  mkSt (per s) (sa s) (sl s)
-       (mkB false false (notifq b) (b_events b ++ [HClosed (per s)]) (b_peers b)) (sh s)
-       (mkG (accepted g) (delivered g) (fclog g) (async_ok g) (async_err g)
-            (if notify then nyes g + 1 else nyes g) (bad g))
-       (later_hints s).
+(* the sink channels of a waiter's stream are still open *)
+Definition wlive (cn : conn) (w : waiter) : bool := (n_per (w_n w) =? e_per cn) && e_alive cn.
 
-(* One poll of Connection A (shutdown was not requested): outbound loop, flush, the inbound
-   substream (EOF once B has closed); then the blocked async senders that were handed a permit
-   complete. The bool says that some sender completed (A is woken again). *)
-Definition a_round (c : cfg) (s : st) : st * bool :=
-  let a := sa s in let l := sl s in let g := sg s in
-  if negb (a_alive a) then (s, false) else
-  let fuel := S (opt_len (parked a) + length (syncq a) + length (asyncq a)) in
-  let '(closed, L) := a_loop fuel c (wgate l)
-                        (mkLst (parked a) (syncq a) (asyncq a) (sink a) (carrier l) (hints a) (bad g)) in
-  let g1 := mkG (accepted g) (delivered g) (fclog g) (async_ok g) (async_err g) (nyes g) (l_bad L) in
-  let s1 := mkSt (per s) (mkA true (l_sq L) (l_aq L) (waiters a) (l_cur L) (l_sk L) (l_h L))
-                 (mkL (wgate l) (rgate l) (l_ca L) (killed l)) (sb s) (sh s) g1 (later_hints s) in
-  if closed then (close_a true s1, false)
+Definition held (cn : conn) (ws : list waiter) : N :=
+  len (filter (fun w => w_asg w && wlive cn w) ws).
+
+(* free permits of the async channel *)
+Definition afree (ce : ecfg) (cn : conn) (ws : list waiter) : N :=
+  c_a ce - len (e_aq cn) - held cn ws.
+
+(* hand k permits to the first waiting (live, unassigned) senders, in FIFO order *)
+Fixpoint assign (cn : conn) (k : nat) (ws : list waiter) : list waiter :=
+  match k, ws with
+  | O, _ => ws
+  | _, [] => []
+  | S k', w :: t =>
+      if w_asg w || negb (wlive cn w) then w :: assign cn k t
+      else mkW (w_id w) (w_n w) true :: assign cn k' t
+  end.
+
+Definition rebalance (ce : ecfg) (cn : conn) (ws : list waiter) : list waiter :=
+  assign cn (N.to_nat (afree ce cn ws)) ws.
+
+Fixpoint find_w (id : N) (ws : list waiter) : option waiter :=
+  match ws with [] => None | w :: t => if w_id w =? id then Some w else find_w id t end.
+Fixpoint remove_w (id : N) (ws : list waiter) : list waiter :=
+  match ws with [] => [] | w :: t => if w_id w =? id then t else w :: remove_w id t end.
+
+(* ---- Connection::close_connection ---- *)
+Definition close (x notify : bool) (s : st) : st :=
+  let e := gep s x in let cn := ec e in let h := eh e in
+  let s1 := sep s x (mkEp (mkC false (e_per cn) false [] [] None [] (e_hints cn) false false)
+                          (mkH (e_ws h) (e_nq h) (e_evs h ++ [HClosed (e_per cn)]) (e_peers h) (e_clog h) (e_cmds h))
+                          (eg e)) in
+  mkSt (per s1) (killed s1) (sA s1) (sB s1) (lAB s1) (lBA s1)
+       (if notify then nyes s + 1 else nyes s) (bad s1) (later_hints s1).
+
+(* the write half of y's outbound substream was shut down (y's Connection of this period ended) *)
+Definition wclosed (s : st) (y : bool) : bool :=
+  (e_per (ec (gep s y)) =? per s) && negb (e_alive (ec (gep s y))).
+
+(* The outbound part of one poll_next of Connection x: outbound loop and flush; permits freed by
+   the pops go to the waiting async senders. The bool says that start_send refused a notification.
+   Every pop from a queue costs one unit of the budget b; with none left the select! is Pending. *)
+Definition out_phase (c : cfg) (x : bool) (b : N) (s : st) : st * bool :=
+  let e := gep s x in let cn := ec e in let h := eh e in let lo := glo s x in
+  let fuel := (opt_len (e_cur cn) + N.to_nat (N.min b (len (e_sq cn) + len (e_aq cn) + 1)))%nat in
+  let '(closed, L) := a_loop fuel (c_max (ecf c x)) (wgate lo)
+                        (mkLst (e_cur cn) (e_sq cn) (e_aq cn) (e_sk cn) (carrier lo) (e_hints cn) (bad s)) in
+  if closed then
+    let cn1 := mkC true (e_per cn) (e_shut cn) (l_sq L) (l_aq L) (l_cur L) (l_sk L) (l_h L) (e_res cn) (e_rwait cn) in
+    let s1 := slo (sep s x (mkEp cn1 h (eg e))) x (mkL (wgate lo) (rgate lo) (l_ca L)) in
+    (mkSt (per s1) (killed s1) (sA s1) (sB s1) (lAB s1) (lBA s1) (nyes s1) (l_bad L) (later_hints s1), true)
   else
     (* poll_flush *)
-    let '(sk, ca) := if wgate l then ([], l_ca L ++ l_sk L) else (l_sk L, l_ca L) in
-    let s2 := mkSt (per s) (mkA true (l_sq L) (l_aq L) (waiters a) (l_cur L) sk (l_h L))
-                   (mkL (wgate l) (rgate l) ca (killed l)) (sb s) (sh s) g1 (later_hints s) in
-    if negb (b_alive (sb s)) then (close_a true s2, false)
-    else
-      let free := N.to_nat (cap_a c - len (l_aq L)) in
-      let adm := firstn free (waiters a) in
-      let s3 := mkSt (per s) (mkA true (l_sq L) (l_aq L ++ adm) (skipn free (waiters a)) (l_cur L) sk (l_h L))
-                     (mkL (wgate l) (rgate l) ca (killed l)) (sb s) (sh s)
-                     (mkG (accepted g ++ adm) (delivered g) (fclog g) (async_ok g + len adm) (async_err g)
-                          (nyes g) (l_bad L))
-                     (later_hints s) in
-      (s3, match adm with [] => false | _ => true end).
+    let '(sk, ca) := if wgate lo then ([], l_ca L ++ l_sk L) else (l_sk L, l_ca L) in
+    let cn1 := mkC true (e_per cn) (e_shut cn) (l_sq L) (l_aq L) (l_cur L) sk (l_h L) (e_res cn) (e_rwait cn) in
+    let h1 := mkH (rebalance (ecf c x) cn1 (e_ws h)) (e_nq h) (e_evs h) (e_peers h) (e_clog h) (e_cmds h) in
+    let s1 := slo (sep s x (mkEp cn1 h1 (eg e))) x (mkL (wgate lo) (rgate lo) ca) in
+    (mkSt (per s1) (killed s1) (sA s1) (sB s1) (lAB s1) (lBA s1) (nyes s1) (l_bad L) (later_hints s1), false).
 
-(* Connection B: poll_next / start until Pending: reserve a slot, then read one frame *)
-Fixpoint b_run (fuel : nat) (c : cfg) (s : st) : st :=
+(* notifications in the two queues of x *)
+Definition qlen (s : st) (x : bool) : N := len (e_sq (ec (gep s x))) + len (e_aq (ec (gep s x))).
+
+(* Connection x can take (or holds) a slot of its user channel *)
+Definition can_reserve (c : cfg) (x : bool) (s : st) : bool :=
+  let e := gep s x in e_res (ec e) || (len (e_nq (eh e)) <? c_n (ecf c x)).
+
+Definition set_res (x : bool) (r w : bool) (s : st) : st :=
+  let e := gep s x in let cn := ec e in
+  sep s x (mkEp (mkC (e_alive cn) (e_per cn) (e_shut cn) (e_sq cn) (e_aq cn) (e_cur cn) (e_sk cn) (e_hints cn) r w)
+                (eh e) (eg e)).
+
+(* a frame read from the inbound substream goes into the reserved slot of the user channel *)
+Definition push_nq (x : bool) (n : notif) (s : st) : st :=
+  let e := gep s x in let cn := ec e in let h := eh e in
+  sep s x (mkEp (mkC (e_alive cn) (e_per cn) (e_shut cn) (e_sq cn) (e_aq cn) (e_cur cn) (e_sk cn) (e_hints cn) false false)
+                (mkH (e_ws h) (e_nq h ++ [n]) (e_evs h) (e_peers h) (e_clog h) (e_cmds h)) (eg e)).
+
+(* PollSender::poll_reserve with budget b. Returns the state, whether a slot is held afterwards, and
+   the budget left. A permit that was handed to the queued waiter (res && rwait) still has to be
+   collected by polling the Acquire future, which costs budget like a fresh acquisition. *)
+Definition reserve_phase (c : cfg) (x : bool) (b : N) (s : st) : st * bool * N :=
+  let cn := ec (gep s x) in
+  if e_res cn && negb (e_rwait cn) then (s, true, b)
+  else if can_reserve c x s then
+    (if 0 <? b then (set_res x true false s, true, b - 1) else (s, false, b))
+  else (if 0 <? b then (set_res x false true s, false, b) else (s, false, b)).
+
+(* One poll of the task `Connection::start` of x under budget b: poll_next until Pending or close. *)
+Fixpoint conn_loop (fuel : nat) (c : cfg) (x : bool) (b : N) (s : st) : st :=
   match fuel with
   | O => s
   | S f =>
-      let b := sb s in let l := sl s in
-      if negb (b_alive b) then s else
-      let can := reserved b || (len (notifq b) <? cap_n c) in
-      (* parked in poll_reserve: only the user channel (or the shutdown signal) wakes the task *)
-      if negb can then s else
-      (* the flush of the outbound substream fails on a killed transport *)
-      if killed l then close_b true s else
-      let s1 := mkSt (per s) (sa s) l (mkB true true (notifq b) (b_events b) (b_peers b)) (sh s) (sg s)
-                     (later_hints s) in
-      if negb (rgate l) then s1 else
-      match carrier l with
-      | [] => if a_alive (sa s) then s1 else close_b true s1
+      (* the oneshot receiver is a tokio resource too: with no budget left it reports Pending *)
+      if e_shut (ec (gep s x)) && (0 <? b) then close x false s else
+      (* every write and flush fails on a killed transport *)
+      if killed s then close x true s else
+      let '(s1, refused) := out_phase c x b s in
+      if refused then close x true s1 else
+      let b1 := b - (qlen s x - qlen s1 x) in
+      let '(s2, go, b2) := reserve_phase c x b1 s1 in
+      if negb go then s2 else
+      let li := glo s2 (negb x) in
+      if negb (rgate li) then s2 else
+      match carrier li with
+      | [] => if wclosed s2 (negb x) then close x true s2 else s2
       | n :: rest =>
-          if max_in c <? n_len n then close_b true s1
-          else b_run f c (mkSt (per s) (sa s) (mkL (wgate l) (rgate l) rest (killed l))
-                               (mkB true false (notifq b ++ [n]) (b_events b) (b_peers b)) (sh s) (sg s)
-                               (later_hints s))
+          if c_max (ecf c x) <? n_len n then close x true s2
+          else conn_loop f c x b2 (push_nq x n (slo s2 (negb x) (mkL (wgate li) (rgate li) rest)))
       end
   end.
 
-(* Run both Connection tasks until nothing is runnable. The tasks alternate: the receiver first
-   (the carrier wakes its reader before its writer), then one poll of the sender, the blocked
-   async senders it released and the receiver again, as long as the sender is woken again. *)
+Definition conn_poll (c : cfg) (x : bool) (b : N) (s : st) : st :=
+  if e_alive (ec (gep s x)) then conn_loop (S (length (carrier (glo s (negb x))))) c x b s else s.
+
+(* ---- NotificationHandle::poll_next with a cooperative budget ---- *)
+Inductive uev := UPending | UOpened (k : N) | UClosed | UNotif (n : notif).
+
+Definition set_hnd (x : bool) (h : hnd) (g : glog) (s : st) : st := sep s x (mkEp (ec (gep s x)) h g).
+
+(* `fixed` = true: the filter of the repaired code (the notification carries the identifier of its
+   stream); false: the filter of the original code (`peers.contains_key(&peer)`), kept only for the
+   refutation lemma. *)
+Definition passes (fixed : bool) (peers : option N) (n : notif) : bool :=
+  match peers with
+  | None => false
+  | Some k => if fixed then n_per n =? k else true
+  end.
+
+Fixpoint h_scan (fixed : bool) (peers : option N) (budget : nat) (q : list notif) : option notif * list notif :=
+  match budget, q with
+  | O, _ => (None, q)
+  | _, [] => (None, [])
+  | S b, n :: t => if passes fixed peers n then (Some n, t) else h_scan fixed peers b t
+  end.
+
+(* the Connection parked in poll_reserve is first in line for the slot freed by a receive: the permit is
+   handed to its queued Acquire future (res && rwait), which collects it on its next poll *)
+Definition hand_over (x : bool) (popped : bool) (s : st) : st :=
+  if popped && e_rwait (ec (gep s x)) && negb (e_res (ec (gep s x))) then set_res x true true s else s.
+
+Definition h_poll_gen (fixed : bool) (c : cfg) (x : bool) (budget : N) (s : st) : st * uev :=
+  let e := gep s x in let h := eh e in let g := eg e in
+  if budget =? 0 then (s, UPending) else
+  match e_evs h with
+  | HOpened k :: es =>
+      (set_hnd x (mkH (e_ws h) (e_nq h) es (Some k) (e_clog h) (e_cmds h))
+               (mkG (e_acc g) (e_del g) (e_dper g) (e_fclog g) (e_fclost g) (e_seen g ++ [HOpened k]) (e_aok g) (e_aerr g)) s,
+       UOpened k)
+  | HClosed k :: es =>
+      (set_hnd x (mkH (e_ws h) (e_nq h) es None false (e_cmds h))
+               (mkG (e_acc g) (e_del g) (e_dper g) (e_fclog g) (e_fclost g) (e_seen g ++ [HClosed k]) (e_aok g) (e_aerr g)) s,
+       UClosed)
+  | [] =>
+      let '(r, q) := h_scan fixed (e_peers h) (N.to_nat (N.min budget (len (e_nq h)))) (e_nq h) in
+      let h1 := mkH (e_ws h) q [] (e_peers h) (e_clog h) (e_cmds h) in
+      let full := len q <? len (e_nq h) in
+      match r with
+      | Some n =>
+          (hand_over x full
+             (set_hnd x h1 (mkG (e_acc g) (e_del g ++ [n]) (e_dper g ++ [e_peers h]) (e_fclog g) (e_fclost g)
+                                (e_seen g) (e_aok g) (e_aerr g)) s), UNotif n)
+      | None => (hand_over x full (set_hnd x h1 g s), UPending)
+      end
+  end.
+
+Definition h_poll := h_poll_gen true.
+
+(* ---- the user's sending calls ---- *)
+Definition live (s : st) (x : bool) (k : N) : bool :=
+  (k =? e_per (ec (gep s x))) && e_alive (ec (gep s x)).
+
+Definition set_conn (x : bool) (cn : conn) (s : st) : st := sep s x (mkEp cn (eh (gep s x)) (eg (gep s x))).
+
+(* result codes: 0 Ok, 1 ChannelClogged, 2 NoConnection, 3 Ok because the peer is unknown *)
+Definition send_sync (c : cfg) (x : bool) (s : st) (tag ln : N) : st * N :=
+  let e := gep s x in let cn := ec e in let h := eh e in let g := eg e in
+  match e_peers h with
+  | None => (s, 3)
+  | Some k =>
+      if live s x k then
+        if len (e_sq cn) <? c_s (ecf c x) then
+          let n := mkN x k true tag ln in
+          (sep s x (mkEp (mkC (e_alive cn) (e_per cn) (e_shut cn) (e_sq cn ++ [n]) (e_aq cn) (e_cur cn) (e_sk cn)
+                              (e_hints cn) (e_res cn) (e_rwait cn)) h
+                         (mkG (e_acc g ++ [n]) (e_del g) (e_dper g) (e_fclog g) (e_fclost g) (e_seen g) (e_aok g) (e_aerr g))), 0)
+        else if e_clog h then (s, 1)
+        else if e_cmds h <? c_c (ecf c x) then
+          (sep s x (mkEp cn (mkH (e_ws h) (e_nq h) (e_evs h) (e_peers h) true (e_cmds h + 1))
+                         (mkG (e_acc g) (e_del g) (e_dper g) (e_fclog g ++ [k]) (e_fclost g) (e_seen g) (e_aok g) (e_aerr g))), 1)
+        else
+          (* the command channel is full: try_send fails and the result is ignored *)
+          (sep s x (mkEp cn (mkH (e_ws h) (e_nq h) (e_evs h) (e_peers h) true (e_cmds h))
+                         (mkG (e_acc g) (e_del g) (e_dper g) (e_fclog g) (e_fclost g + 1) (e_seen g) (e_aok g) (e_aerr g))), 1)
+      else (s, 2)
+  end.
+
+Definition set_async (x : bool) (aq : list notif) (ws : list waiter) (acc : list notif) (ok err : N) (s : st) : st :=
+  let e := gep s x in let cn := ec e in let h := eh e in let g := eg e in
+  sep s x (mkEp (mkC (e_alive cn) (e_per cn) (e_shut cn) (e_sq cn) aq (e_cur cn) (e_sk cn) (e_hints cn) (e_res cn) (e_rwait cn))
+                (mkH ws (e_nq h) (e_evs h) (e_peers h) (e_clog h) (e_cmds h))
+                (mkG acc (e_del g) (e_dper g) (e_fclog g) (e_fclost g) (e_seen g) ok err)).
+
+(* create a send_async_notification future on a clone of the sink and poll it once.
+   0 Ok, 2 Err, 3 Err because the peer is unknown, 4 Pending, 5 identifier in use *)
+Definition async_start (c : cfg) (x : bool) (s : st) (id tag ln : N) : st * N :=
+  let e := gep s x in let cn := ec e in let h := eh e in let g := eg e in
+  match find_w id (e_ws h) with Some _ => (s, 5) | None =>
+  match e_peers h with
+  | None => (s, 3)
+  | Some k =>
+      let n := mkN x k false tag ln in
+      if live s x k then
+        if 0 <? afree (ecf c x) cn (e_ws h)
+        then (set_async x (e_aq cn ++ [n]) (e_ws h) (e_acc g ++ [n]) (e_aok g + 1) (e_aerr g) s, 0)
+        else (set_async x (e_aq cn) (e_ws h ++ [mkW id n false]) (e_acc g) (e_aok g) (e_aerr g) s, 4)
+      else (set_async x (e_aq cn) (e_ws h) (e_acc g) (e_aok g) (e_aerr g + 1) s, 2)
+  end end.
+
+(* poll a pending future once: 0 Ok, 2 Err, 4 Pending, 5 no such future *)
+Definition async_poll (x : bool) (s : st) (id : N) : st * N :=
+  let e := gep s x in let cn := ec e in let h := eh e in let g := eg e in
+  match find_w id (e_ws h) with
+  | None => (s, 5)
+  | Some w =>
+      if negb (wlive cn w) then (set_async x (e_aq cn) (remove_w id (e_ws h)) (e_acc g) (e_aok g) (e_aerr g + 1) s, 2)
+      else if w_asg w then
+        (set_async x (e_aq cn ++ [w_n w]) (remove_w id (e_ws h)) (e_acc g ++ [w_n w]) (e_aok g + 1) (e_aerr g) s, 0)
+      else (s, 4)
+  end.
+
+(* drop a pending future: its permit, if any, goes to the next waiting sender. 0 done, 5 no such future *)
+Definition async_drop (c : cfg) (x : bool) (s : st) (id : N) : st * N :=
+  let e := gep s x in let cn := ec e in let h := eh e in let g := eg e in
+  match find_w id (e_ws h) with
+  | None => (s, 5)
+  | Some w =>
+      (set_async x (e_aq cn) (rebalance (ecf c x) cn (remove_w id (e_ws h))) (e_acc g) (e_aok g) (e_aerr g) s, 0)
+  end.
+
+(* ---- the protocol ---- *)
+Definition fresh_conn (p : N) (h : list bool) : conn := mkC true p false [] [] None [] h false false.
+
+Definition open_ep (x : bool) (p : N) (s : st) : st :=
+  let e := gep s x in let h := eh e in
+  let s1 := sep s x (mkEp (fresh_conn p (hd [] (later_hints s)))
+                          (mkH (e_ws h) (e_nq h) (e_evs h ++ [HOpened p]) (e_peers h) (e_clog h) (e_cmds h)) (eg e)) in
+  mkSt (per s1) (killed s1) (sA s1) (sB s1) (lAB s1) (lBA s1) (nyes s1) (bad s1) (tl (later_hints s)).
+
+(* 0 opened, 1 refused *)
+Definition open_stream (x : bool) (s : st) : st * N :=
+  let cx := ec (gep s x) in let cy := ec (gep s (negb x)) in
+  if e_alive cx then (s, 1)
+  else if e_per cx <? per s then (open_ep x (per s) s, 0)          (* join the period the peer has opened *)
+  else if negb (e_alive cy) && (e_per cy =? per s) then
+    (* both Connections of the previous period have ended: new pair of carriers *)
+    let p := per s + 1 in
+    (open_ep x p (mkSt p false (sA s) (sB s) (mkL true true []) (mkL true true []) (nyes s) (bad s) (later_hints s)), 0)
+  else (s, 1).
+
+Definition kill (s : st) : st :=
+  mkSt (per s) true (sA s) (sB s) (mkL (wgate (lAB s)) (rgate (lAB s)) [])
+       (mkL (wgate (lBA s)) (rgate (lBA s)) []) (nyes s) (bad s) (later_hints s).
+
+Inductive step :=
+| SSync (x : bool) (tag ln : N)
+| SAsyncStart (x : bool) (id tag ln : N)
+| SAsyncPoll (x : bool) (id : N)
+| SAsyncDrop (x : bool) (id : N)
+| SConn (x : bool) (budget : N)
+| SHandle (x : bool) (budget : N)
+| SOpen (x : bool)
+| SClose (x : bool)
+| SCmd (x : bool)
+| SCmdFail (x : bool)
+| SGate (x : bool) (w r : bool)
+| SKill.
+
+Inductive res := RCode (v : N) | RUser (e : uev).
+
+Definition do_step (c : cfg) (s : st) (t : step) : st * res :=
+  match t with
+  | SSync x tag ln => let '(s1, r) := send_sync c x s tag ln in (s1, RCode r)
+  | SAsyncStart x id tag ln => let '(s1, r) := async_start c x s id tag ln in (s1, RCode r)
+  | SAsyncPoll x id => let '(s1, r) := async_poll x s id in (s1, RCode r)
+  | SAsyncDrop x id => let '(s1, r) := async_drop c x s id in (s1, RCode r)
+  | SConn x b => let s1 := conn_poll c x b s in (s1, RCode (if e_alive (ec (gep s1 x)) then 0 else 1))
+  | SHandle x b => let '(s1, e) := h_poll c x b s in (s1, RUser e)
+  | SOpen x => let '(s1, r) := open_stream x s in (s1, RCode r)
+  | SClose x =>
+      let cn := ec (gep s x) in
+      if e_alive cn then
+        (set_conn x (mkC true (e_per cn) true (e_sq cn) (e_aq cn) (e_cur cn) (e_sk cn) (e_hints cn) (e_res cn) (e_rwait cn)) s, RCode 0)
+      else (s, RCode 1)
+  | SCmd x =>
+      let e := gep s x in let h := eh e in
+      if e_cmds h =? 0 then (s, RCode 0)
+      else (kill (set_hnd x (mkH (e_ws h) (e_nq h) (e_evs h) (e_peers h) (e_clog h) (e_cmds h - 1)) (eg e) s), RCode 1)
+  | SCmdFail x =>
+      (* the protocol takes a ForceClose command whose connection is already gone: force_close fails
+         and the result is ignored *)
+      let e := gep s x in let h := eh e in
+      if e_cmds h =? 0 then (s, RCode 0)
+      else (set_hnd x (mkH (e_ws h) (e_nq h) (e_evs h) (e_peers h) (e_clog h) (e_cmds h - 1)) (eg e) s, RCode 1)
+  | SGate x w r => (slo s x (mkL w r (carrier (glo s x))), RCode 0)
+  | SKill => if per s =? 0 then (s, RCode 1) else (kill s, RCode 0)
+  end.
+
+Fixpoint run (c : cfg) (s : st) (ts : list step) : st * list res :=
+  match ts with
+  | [] => (s, [])
+  | t :: r => let '(s1, v) := do_step c s t in let '(s2, vs) := run c s1 r in (s2, v :: vs)
+  end.
+
+Definition final (c : cfg) (hs : list (list bool)) (ts : list step) : st := fst (run c (init hs) ts).
+
+(* ---- projections used by the statements ---- *)
+(* notifications of period k sent through mode m *)
+Definition sel (k : N) (m : bool) (n : notif) : bool := (n_per n =? k) && Bool.eqb (n_sync n) m.
+Definition proj (k : N) (m : bool) (l : list notif) : list notif := filter (sel k m) l.
+Definition prefix {A} (x y : list A) : Prop := exists r, y = x ++ r.
+
+(* ------------------------------------------------------------------------------------------
+   The quiescence-based stream: one user action, then both Connection tasks and the woken async
+   senders run until nothing is runnable (what a current-thread tokio runtime does between two
+   actions of the harness). Every macro action is a composition of scheduler steps. Only endpoint
+   A sends in this stream. *)
+
+Definition woken_ids (cn : conn) (ws : list waiter) : list N :=
+  map w_id (filter (fun w => w_asg w || negb (wlive cn w)) ws).
+
+Fixpoint poll_ids (x : bool) (ids : list N) (s : st) (prog : bool) : st * bool :=
+  match ids with
+  | [] => (s, prog)
+  | id :: t => let '(s1, r) := async_poll x s id in poll_ids x t s1 (prog || (r =? 0))
+  end.
+
+Definition poll_woken (x : bool) (s : st) : st * bool :=
+  poll_ids x (woken_ids (ec (gep s x)) (e_ws (eh (gep s x)))) s false.
+
+Definition BIG : N := 1000000.
+
+(* a Connection parked in poll_reserve is woken only by its user channel or the shutdown signal *)
+Definition b_woken (c : cfg) (s : st) : bool :=
+  let cn := ec (gep s false) in e_alive cn && (e_shut cn || can_reserve c false s).
+Definition poll_b (c : cfg) (s : st) : st := if b_woken c s then conn_poll c false BIG s else s.
+
 Fixpoint rounds (fuel : nat) (c : cfg) (s : st) : st :=
   match fuel with
   | O => s
   | S f =>
-      let '(s1, again) := a_round c s in
-      let s2 := b_run (S (length (carrier (sl s1)))) c s1 in
-      if again then rounds f c s2
-      else if a_alive (sa s2) && negb (b_alive (sb s2)) then fst (a_round c s2) else s2
+      let s1 := conn_poll c true BIG s in
+      let '(s2, prog) := poll_woken true s1 in
+      let s3 := poll_b c s2 in
+      if prog then rounds f c s3
+      else if e_alive (ec (gep s3 true)) && wclosed s3 false
+           then fst (poll_woken true (conn_poll c true BIG s3)) else s3
   end.
 
 Definition settle (c : cfg) (s : st) : st :=
-  let s0 := b_run (S (length (carrier (sl s)))) c s in
-  rounds (S (length (waiters (sa s0)))) c s0.
-
-(* ---- NotificationHandle B: Stream::poll_next ---- *)
-Inductive uev := UPending | UOpened (k : N) | UClosed | UNotif (n : notif).
-
-Definition h_poll (s : st) : st * uev :=
-  let b := sb s in let g := sg s in
-  match b_events b with
-  | HOpened k :: es =>
-      (mkSt (per s) (sa s) (sl s) (mkB (b_alive b) (reserved b) (notifq b) es true) (sh s) g (later_hints s),
-       UOpened k)
-  | HClosed _ :: es =>
-      (mkSt (per s) (sa s) (sl s) (mkB (b_alive b) (reserved b) (notifq b) es false) (sh s) g (later_hints s),
-       UClosed)
-  | [] =>
-      if b_peers b then
-        match notifq b with
-        | [] => (s, UPending)
-        | n :: q =>
-            (mkSt (per s) (sa s) (sl s) (mkB (b_alive b) (reserved b) q [] true) (sh s)
-                  (mkG (accepted g) (delivered g ++ [n]) (fclog g) (async_ok g) (async_err g) (nyes g) (bad g))
-                  (later_hints s),
-             UNotif n)
-        end
-      else
-        (* the peer is unknown: every queued notification is dropped, then Pending *)
-        (mkSt (per s) (sa s) (sl s) (mkB (b_alive b) (reserved b) [] [] false) (sh s) g
-              (later_hints s),
-         UPending)
-  end.
-
-(* ---- NotificationHandle A ---- *)
-Fixpoint pa_events (evs : list hev) (snk : option N) (clg : bool) : option N * bool :=
-  match evs with
-  | [] => (snk, clg)
-  | HOpened k :: t => pa_events t (Some k) clg
-  | HClosed _ :: t => pa_events t None false
-  end.
-
-Definition live (s : st) (k : N) : bool := (k =? per s) && a_alive (sa s).
-
-(* result codes: 0 Ok, 1 ChannelClogged, 2 NoConnection, 3 Ok because the peer is unknown *)
-Definition send_sync (c : cfg) (s : st) (tag ln : N) : st * N :=
-  let a := sa s in let h := sh s in let g := sg s in
-  match a_sink h with
-  | None => (s, 3)
-  | Some k =>
-      if live s k then
-        if len (syncq a) <? cap_s c then
-          let n := mkN k true tag ln in
-          (mkSt (per s) (mkA (a_alive a) (syncq a ++ [n]) (asyncq a) (waiters a) (parked a) (sink a) (hints a))
-                (sl s) (sb s) h
-                (mkG (accepted g ++ [n]) (delivered g) (fclog g) (async_ok g) (async_err g) (nyes g) (bad g))
-                (later_hints s), 0)
-        else if a_clogged h then (s, 1)
-        else (mkSt (per s) a (sl s) (sb s) (mkH (a_events h) (a_sink h) true)
-                   (mkG (accepted g) (delivered g) (fclog g ++ [k]) (async_ok g) (async_err g) (nyes g) (bad g))
-                   (later_hints s), 1)
-      else (s, 2)
-  end.
-
-(* result codes: 0 future created (its completion shows in async_ok / async_err / waiters),
-   3 Err(PeerDoesntExist) because the peer is unknown *)
-Definition send_async (s : st) (tag ln : N) : st * N :=
-  let a := sa s in let h := sh s in let g := sg s in
-  match a_sink h with
-  | None => (s, 3)
-  | Some k =>
-      if live s k then
-        (mkSt (per s) (mkA (a_alive a) (syncq a) (asyncq a) (waiters a ++ [mkN k false tag ln]) (parked a)
-                           (sink a) (hints a))
-              (sl s) (sb s) h g (later_hints s), 0)
-      else
-        (mkSt (per s) a (sl s) (sb s) h
-              (mkG (accepted g) (delivered g) (fclog g) (async_ok g) (async_err g + 1) (nyes g) (bad g))
-              (later_hints s), 0)
-  end.
+  rounds (S (length (e_ws (eh (gep s true))))) c (poll_b c s).
 
 Inductive action :=
 | ASendSync (tag ln : N)
@@ -337,55 +570,53 @@ Inductive action :=
 | AKill
 | AReopen.
 
-Inductive res :=
-| RCode (x : N)
-| RUser (e : uev)
-| REvents (l : list hev).
+Inductive ares :=
+| ACode (x : N)
+| AUser (e : uev)
+| AEvents (l : list hev).
 
-Definition reopen (s : st) : st * N :=
-  if a_alive (sa s) || b_alive (sb s) then (s, 1)
-  else
-    let p := per s + 1 in
-    let b := sb s in let h := sh s in
-    (mkSt p (mkA true [] [] [] None [] (hd [] (later_hints s))) (mkL true true [] false)
-          (mkB true false (notifq b) (b_events b ++ [HOpened p]) (b_peers b))
-          (mkH (a_events h ++ [HOpened p]) (a_sink h) (a_clogged h)) (sg s) (tl (later_hints s)), 0).
+Fixpoint drain_a (c : cfg) (fuel : nat) (s : st) (acc : list hev) : st * list hev :=
+  match fuel with
+  | O => (s, acc)
+  | S f =>
+      match h_poll c true BIG s with
+      | (s1, UOpened k) => drain_a c f s1 (acc ++ [HOpened k])
+      | (s1, UClosed) => drain_a c f s1 (acc ++ [HClosed 0])
+      | (s1, _) => (s1, acc)
+      end
+  end.
 
-Definition act (c : cfg) (s : st) (x : action) : st * res :=
-  match x with
-  | ASendSync t l => let '(s1, r) := send_sync c s t l in (s1, RCode r)
-  | ASendAsync t l => let '(s1, r) := send_async s t l in (s1, RCode r)
-  | AGate w r => (mkSt (per s) (sa s) (mkL w r (carrier (sl s)) (killed (sl s))) (sb s) (sh s) (sg s) (later_hints s), RCode 0)
-  | AUserRecv => let '(s1, e) := h_poll s in (s1, RUser e)
+Definition code_of (r : res) : N := match r with RCode v => v | RUser _ => 9 end.
+
+(* the harness empties the command channels after every action without acting on the commands *)
+Fixpoint drain_x (fuel : nat) (c : cfg) (x : bool) (s : st) : st :=
+  match fuel with
+  | O => s
+  | S f => drain_x f c x (fst (do_step c s (SCmdFail x)))
+  end.
+Definition drain_cmds (c : cfg) (s : st) : st :=
+  let s1 := drain_x (N.to_nat (e_cmds (eh (gep s true)))) c true s in
+  drain_x (N.to_nat (e_cmds (eh (gep s1 false)))) c false s1.
+
+Definition act (c : cfg) (i : N) (s : st) (a : action) : st * ares :=
+  match a with
+  | ASendSync t l => let '(s1, r) := do_step c s (SSync true t l) in (s1, ACode (code_of r))
+  | ASendAsync t l =>
+      let '(s1, r) := do_step c s (SAsyncStart true i t l) in (s1, ACode (if code_of r =? 3 then 3 else 0))
+  | AGate w r => let '(s1, _) := do_step c s (SGate true w r) in (s1, ACode 0)
+  | AUserRecv => let '(s1, e) := h_poll c false BIG s in (s1, AUser e)
   | APollA =>
-      let h := sh s in
-      let '(snk, clg) := pa_events (a_events h) (a_sink h) (a_clogged h) in
-      (mkSt (per s) (sa s) (sl s) (sb s) (mkH [] snk clg) (sg s) (later_hints s), REvents (a_events h))
-  | ACloseA => if a_alive (sa s) then (close_a false s, RCode 0) else (s, RCode 1)
-  | ACloseB => if b_alive (sb s) then (close_b false s, RCode 0) else (s, RCode 1)
+      let '(s1, l) := drain_a c (S (length (e_evs (eh (gep s true))) + length (e_nq (eh (gep s true))))) s [] in
+      (s1, AEvents l)
+  | ACloseA => let '(s1, r) := do_step c s (SClose true) in (s1, ACode (code_of r))
+  | ACloseB => let '(s1, r) := do_step c s (SClose false) in (s1, ACode (code_of r))
   | AKill =>
-      if a_alive (sa s) || b_alive (sb s) then
-        let l := sl s in
-        let s1 := mkSt (per s) (sa s) (mkL (wgate l) (rgate l) [] true) (sb s) (sh s) (sg s) (later_hints s) in
-        (* Connection A always has a read pending on the reverse carrier: it sees the error now;
-           Connection B sees it when it is next polled (settle) *)
-        (if a_alive (sa s) then close_a true s1 else s1, RCode 0)
-      else (s, RCode 1)
-  | AReopen => let '(s1, r) := reopen s in (s1, RCode r)
+      if e_alive (ec (gep s true)) || e_alive (ec (gep s false))
+      then let '(s1, r) := do_step c s SKill in (s1, ACode (code_of r)) else (s, ACode 1)
+  | AReopen =>
+      if e_alive (ec (gep s true)) || e_alive (ec (gep s false)) then (s, ACode 1)
+      else let '(s1, _) := open_stream false s in let '(s2, _) := open_stream true s1 in (s2, ACode 0)
   end.
 
-Definition step (c : cfg) (s : st) (x : action) : st * res :=
-  let '(s1, r) := act c s x in (settle c s1, r).
-
-Fixpoint run (c : cfg) (s : st) (xs : list action) : st * list res :=
-  match xs with
-  | [] => (s, [])
-  | x :: t => let '(s1, r) := step c s x in let '(s2, rs) := run c s1 t in (s2, r :: rs)
-  end.
-
-Definition final (c : cfg) (hs : list (list bool)) (xs : list action) : st := fst (run c (init hs) xs).
-
-(* ---- projections used by the statements ---- *)
-Definition sel (k : N) (m : bool) (n : notif) : bool := (n_per n =? k) && Bool.eqb (n_sync n) m.
-Definition proj (k : N) (m : bool) (l : list notif) : list notif := filter (sel k m) l.
-Definition prefix {A} (x y : list A) : Prop := exists r, y = x ++ r.
+Definition astep (c : cfg) (i : N) (s : st) (a : action) : st * ares :=
+  let '(s1, r) := act c i s a in (drain_cmds c (settle c s1), r).
